@@ -251,26 +251,47 @@ def _run(cmd, **kw):
     return subprocess.run(cmd, stdout=subprocess.PIPE, stderr=subprocess.STDOUT, text=True, **kw)
 
 
+# Families whose events are (also) judged by conjuncts another property owns: the owner runs them as SECONDARY
+# families - a share of the cases in the quick tier, all of them (one round) in the thorough tier - so that a
+# rejection "attributed to another property" is reported by that property's own check and not only noted.
+# which families emit events of which kind (the kinds whose contract conjuncts a property owns)
+_EMITS = {
+    "Construct": ["construct", "insert", "flips", "remove", "repair", "queries", "serde", "toroidal", "determinism", "failpoints", "faults"],
+    "Insert": ["insert", "flips", "remove", "queries", "serde", "toroidal", "determinism", "failpoints"],
+    "Verdicts": ["construct", "insert", "flips", "remove", "repair", "queries", "serde", "toroidal", "verdictwalk", "repairwalk"],
+    "Remove": ["remove", "flips", "queries", "serde", "failpoints"],
+    "Flip": ["flips", "repair", "queries", "serde", "failpoints", "verdictwalk", "repairwalk"],
+    "Repair": ["repair", "queries", "serde", "failpoints", "verdictwalk", "repairwalk"],
+}
+SECONDARY = {"C01": _EMITS["Construct"], "C02": _EMITS["Insert"], "C04": _EMITS["Verdicts"], "C06": _EMITS["Remove"],
+             "C07": _EMITS["Flip"], "C08": _EMITS["Repair"]}
+STAGE_FAMILIES = {"C02": ["inserttxn"], "C03": ["inserttxn", "removetxn"], "C06": ["removetxn"], "C09": ["caches"], "C11": ["caches"],
+                  "C18": ["measures"], "C08": ["repairtrace"]}
+SECONDARY_SHARE = 0.3
 THOROUGH_ROUNDS = 3   # the thorough tier drives every family with this many seeds (seed, seed + 101, ...)
 
 
-def drive_rounds(ctx, fam, nparts):
-    """quick: one round with the seed; thorough: THOROUGH_ROUNDS rounds with derived seeds"""
+def drive_rounds(ctx, fam, nparts, share=1.0):
+    """quick: one round with the seed (a `share` < 1 runs only that fraction of the parts: secondary families);
+    thorough: THOROUGH_ROUNDS rounds with derived seeds, every part"""
     outs = []
-    for rnd in range(THOROUGH_ROUNDS if ctx.tier == "thorough" else 1):
-        o, err = drive_family(ctx, fam, nparts, seed=ctx.seed + 101 * rnd, suffix="" if rnd == 0 else "_r%d" % rnd)
+    thorough = ctx.tier == "thorough"
+    for rnd in range(THOROUGH_ROUNDS if thorough and share >= 1.0 else 1):
+        o, err = drive_family(ctx, fam, nparts, seed=ctx.seed + 101 * rnd, suffix="" if rnd == 0 else "_r%d" % rnd,
+                              only=None if thorough or share >= 1.0 else max(2, int(nparts * share + 0.5)))
         if err:
             return outs, err
         outs += o
     return outs, None
 
 
-def drive_family(ctx, fam, nparts, extra_args=None, seed=None, suffix=""):
-    """run the driver family in nparts processes (even parts debug profile, odd parts release)"""
+def drive_family(ctx, fam, nparts, extra_args=None, seed=None, suffix="", only=None):
+    """run the driver family in nparts processes (even parts debug profile, odd parts release);
+    only = run just the first `only` parts (a share of the cases)"""
     tdir = os.path.join(ctx.wdir, "traces")
     jobs = []
     seed = ctx.seed if seed is None else seed
-    for k in range(nparts):
+    for k in range(nparts if only is None else min(only, nparts)):
         prof = "debug" if k % 2 == 0 else "release"
         out = os.path.join(tdir, "%s%s_%02d_%s.ndjson" % (fam, suffix, k, prof))
         cmd = [ctx.vdrive(prof), fam, "--tier", ctx.tier, "--seed", str(seed), "--part", "%d/%d" % (k, nparts),
@@ -291,6 +312,14 @@ def drive_family(ctx, fam, nparts, extra_args=None, seed=None, suffix=""):
     return res, None
 
 
+def families_of(pid):
+    """every driver family the check of `pid` runs (primary, secondary, stage-driven)"""
+    plan = PLANS.get(pid, {})
+    fs = {x[0] for x in plan.get("families", [])} | {x[0] for x in plan.get("pure_families", [])} | set(SECONDARY.get(pid, []))
+    fs |= set(STAGE_FAMILIES.get(pid, []))
+    return fs
+
+
 def execute(plan, ctx):
     cov = {"states": 0, "transitions": 0, "traces_validated_against_impl": 0, "evaluations": 0,
            "distinct_nontrivial": 0, "rule": plan.get("rule", ""), "samples": [], "events_by_kind": {},
@@ -309,10 +338,14 @@ def execute(plan, ctx):
 
     # 2. drivers -> traces -> TLC
     traces = []   # (path, trace module)
-    for fam, nq, nt in plan.get("families", []):
+    fams = list(plan.get("families", [])) + [(f, 14, 16, SECONDARY_SHARE) for f in SECONDARY.get(ctx.pid, [])
+                                              if f not in [x[0] for x in plan.get("families", [])]]
+    for ent in fams:
+        fam, nq, nt = ent[0], ent[1], ent[2]
+        share = ent[3] if len(ent) > 3 else 1.0
         n = nt if thorough else nq
         t0 = time.time()
-        outs, err = drive_rounds(ctx, fam, n)
+        outs, err = drive_rounds(ctx, fam, n, share)
         if err:
             return {"tool_error": err}
         ctx.log("drove %s: %d traces in %.1fs" % (fam, len(outs), time.time() - t0))
